@@ -87,6 +87,88 @@ def _fold_reach(v0: int, v1: int, s0: bool, s1: bool) -> bool:
     return fold([v0, v1, 3], [s0, s1, False], [-1, 0, 1])
 
 
+# ---- the same fold while an OUTER trace is active: contributions are boxes (higher-order differentiation) ------
+
+
+@primitive
+def _shift(u, w):
+    return Q(u.v + w.v)
+
+
+defvjp(_shift, lambda ans, u, w: lambda g: g, lambda ans, u, w: lambda g: g)
+
+
+def fold_boxed(vals, sparse, alias):
+    """the accumulation fold executed inside an enclosing make_vjp trace, so every dense contribution is a Box of
+    that trace (this is what the backward pass of an inner grad sees under an outer grad / hessian).  The
+    ownership protocol must hold for the VALUES inside the boxes: sparse_add / mut_add are traced primitives that
+    unbox their arguments and scatter in place into whatever buffer they were handed."""
+    del MUT_LOG[:]
+    del SP_LOG[:]
+    n = len(vals)
+    verdict = []
+
+    def f(x):
+        objs = []
+        for i in range(n):
+            if sparse[i]:
+                objs.append(mk_sparse(vals[i]))
+            else:
+                j = alias[i]
+                if 0 <= j < i and not sparse[j]:
+                    objs.append(objs[j])
+                else:
+                    objs.append(_shift(x, Q(vals[i])))  # box of the outer trace with value x0 + vals[i], x0 = 0
+        inner = [None if sparse[i] else getattr(o, "_value", o) for i, o in enumerate(objs)]
+        dense_ids = {id(v) for v in inner if v is not None}
+        before = [None if v is None else v.v for v in inner]
+        acc = None
+        for o in objs:
+            acc = add_outgrads(acc, o)
+        res = acc[0]
+        total = 0
+        for i in range(n):
+            total = total + (vals[i] if sparse[i] else before[i])
+        ok = True
+        for t in MUT_LOG + SP_LOG:
+            if t in dense_ids:
+                ok = False
+        for i in range(n):
+            if inner[i] is not None and inner[i].v != before[i]:
+                ok = False
+        rv = getattr(res, "_value", res)
+        if not (isinstance(rv, Q) and rv.v == total):
+            ok = False
+        verdict.append(ok)
+        return res
+
+    make_vjp(f, Q(0))
+    return len(verdict) == 1 and verdict[0]
+
+
+def _foldb3(v0: int, v1: int, v2: int, s0: bool, s1: bool, s2: bool, a1: int, a2: int) -> bool:
+    """
+    pre: -1 <= a1 <= 0 and -1 <= a2 <= 1
+    post: _
+    """
+    return fold_boxed([v0, v1, v2], [s0, s1, s2], [-1, a1, a2])
+
+
+def _foldb4(v0: int, v1: int, v2: int, v3: int, s0: bool, s1: bool, s2: bool, s3: bool, a1: int, a2: int, a3: int) -> bool:
+    """
+    pre: -1 <= a1 <= 0 and -1 <= a2 <= 1 and -1 <= a3 <= 2
+    post: _
+    """
+    return fold_boxed([v0, v1, v2, v3], [s0, s1, s2, s3], [-1, a1, a2, a3])
+
+
+def _foldb_reach(v0: int, v1: int, s0: bool, s1: bool) -> bool:
+    """
+    post: False
+    """
+    return fold_boxed([v0, v1, 3], [s0, s1, False], [-1, 0, 1])
+
+
 # ---- whole pipeline with aliasing rules, VJP function called repeatedly --------------------------------------
 
 
